@@ -6,7 +6,7 @@ statement.   usage: twins4.py [module ...]"""
 import ast, json, os, shutil, subprocess, sys, tempfile
 from concurrent.futures import ThreadPoolExecutor
 HERE = os.path.dirname(os.path.dirname(os.path.abspath(__file__)))
-PIDS = ['C%02d' % i for i in range(1, 21) if i != 15]
+PIDS = ['C%02d' % i for i in range(1, 21)]
 MODS = ['api', 'writer', 'core', 'util', 'schema', 'converted_types', 'encoding', 'compression', 'dataframe']
 
 
